@@ -23,6 +23,9 @@ from typing import Any, Iterable
 
 VERIF = pathlib.Path(__file__).resolve().parent.parent
 REPO = pathlib.Path(os.environ.get("VERIF_REPO", "/repo"))
+# evidence/ and replays/new/ are written below OUT: /verif itself, except when a seeded change in a scratch worktree is
+# being judged (tools/process_seed3.sh), whose verdicts must not overwrite the evidence of the real tree
+OUT = pathlib.Path(os.environ.get("VERIF_OUT", "") or VERIF)
 SEED = int(os.environ.get("VERIF_SEED", "1") or "1")
 NPROC = int(os.environ.get("VERIF_NPROC", "0") or "0") or min(16, os.cpu_count() or 1)
 MAX_SAMPLES = 12
@@ -114,7 +117,7 @@ class Ctx(Recorder):
         for v in self.violations:
             by_key.setdefault(v["key"], []).append(v)
         open_known = {k["key"]: k for k in self.known if k.get("status") == "open"}
-        new_dir = VERIF / "replays" / "new"
+        new_dir = OUT / "replays" / "new"
         unlisted = 0
         known_hit = 0
         lines: list[str] = []
@@ -170,8 +173,8 @@ class Ctx(Recorder):
             "wall_s": round(time.time() - self.t0, 2),
             "violations": int(unlisted),
         }
-        out = VERIF / "evidence"
-        out.mkdir(exist_ok=True)
+        out = OUT / "evidence"
+        out.mkdir(parents=True, exist_ok=True)
         (out / f"{self.pid}.json").write_text(json.dumps(ev, indent=1, default=str) + "\n")
 
 
